@@ -22,11 +22,24 @@ func newModSet() *modSet { return &modSet{arr: map[string]bool{}, cnt: map[strin
 func (m *modSet) arrays() []string {
 	var out []string
 	for a := range m.arr {
+		if strings.HasSuffix(a, "*") {
+			pre := strings.TrimSuffix(a, "*")
+			pre = strings.TrimSuffix(pre, ".")
+			for k := range knownArrays {
+				if strings.HasPrefix(k, pre) {
+					out = append(out, k)
+				}
+			}
+			continue
+		}
 		out = append(out, a)
 	}
 	sort.Strings(out)
 	return out
 }
+
+// knownArrays: every heap array name that has been declared so far (for wildcard havocs)
+var knownArrays = map[string]bool{}
 func (m *modSet) counters() []string {
 	var out []string
 	for a := range m.cnt {
@@ -116,7 +129,11 @@ func (ex *Exec) staticArrs(addr ssa.Value, ms *modSet) {
 		ms.arr["global."+so] = true
 		return
 	}
-	// Alloc, FreeVar, Param, Phi ... : a cell or a struct object addressed by its ref
+	if name, ok := resolveCell(addr); ok {
+		ms.arr[name] = true
+		return
+	}
+	// Param, Phi ... : a cell or a struct object addressed by its ref
 	if s := structOf(t); s != nil {
 		ex.addFieldArrs(rootName(t), "", t, ms)
 		return
@@ -125,7 +142,7 @@ func (ex *Exec) staticArrs(addr ssa.Value, ms *modSet) {
 	if so == "" {
 		so = "Int"
 	}
-	ms.arr["cell."+so] = true
+	ms.arr["cell."+so+"*"] = true
 }
 
 func (ex *Exec) addFieldArrs(root, prefix string, t types.Type, ms *modSet) {
@@ -192,7 +209,7 @@ func (ex *Exec) scanInstr(in ssa.Instruction, ms *modSet) {
 		}
 	case *ssa.MakeChan:
 		ms.arr["closed"] = true
-		ms.arr["chlen"] = true
+		ms.arr["chlen.*"] = true
 	case *ssa.Range:
 		if mt, ok := types.Unalias(x.X.Type()).Underlying().(*types.Map); ok {
 			ms.arr["visited."+sortOf(mt.Key())] = true
@@ -204,7 +221,9 @@ func (ex *Exec) scanInstr(in ssa.Instruction, ms *modSet) {
 	case *ssa.Send:
 		ms.cnt["send"] = true
 		ms.cnt["send:*"] = true
+		ms.arr["chlen.*"] = true
 	case *ssa.Select:
+		ms.arr["chlen.*"] = true
 		ms.cnt["send"] = true
 		ms.cnt["send:*"] = true
 		ms.cnt["recv"] = true
@@ -254,6 +273,7 @@ func (ex *Exec) scanCall(c *ssa.CallCommon, ms *modSet, isGo bool) {
 		case "(*sync.Mutex).Lock", "(*sync.Mutex).Unlock":
 			ms.arr["closed"] = true
 			ms.arr["ctxdone"] = true
+			ms.arr["chlen.*"] = true
 			if r, p, ok := staticRoot(c.Args[0]); ok {
 				key := r + "." + strings.TrimSuffix(p, ".")
 				if ls := ex.specs.Locks[key]; ls != nil {
@@ -295,6 +315,9 @@ func (ex *Exec) scanCall(c *ssa.CallCommon, ms *modSet, isGo bool) {
 				return
 			}
 			ms.union(ex.funcModSet(fn))
+			if k := ex.prog.Keys[fn]; k != "" {
+				ms.cnt["call:"+k] = true
+			}
 			return
 		}
 		ms.cnt[name] = true
